@@ -149,6 +149,41 @@ def run(ctx):
         ctx.broken.append("astfact:saver_lock_discipline (scenario.Saver methods touching the shared decompressionModel without "
                           "Lock(); defer Unlock(): %s; shape recognised: %s)" % (unlocked, shape))
 
+    # ---- access recording of a real save -> instruction sequences of SharedSection.v, discipline checked by computation
+    probes = [l for l in lines if l.get("kind") == "saverprobe"]
+
+    def instr(i):
+        if i == "acq":
+            return "Acq"
+        if i == "rel":
+            return "Rel"
+        return "%s %d" % ("Ld" if i[0] == "ld" else "Rd", i[1])
+    body3 = g.HEADER + "From Crem Require Import SharedSection SharedSectionProofs Properties.C08.\nOpen Scope string_scope.\nOpen Scope nat_scope.\n"
+    body3 += ("(* access recording of one real save (multi-objective solution set; single-objective result) through\n"
+              "   scenario.Saver with the shared decompression model wrapped by the probe: Acq/Rel = the mutex was found\n"
+              "   taken/free at the access, Ld k = k-th write phase, Rd k = read after write phase k *)\n")
+    for pr in probes:
+        body3 += "Definition saver_prog_%s : list (instr nat) := [%s].\n" % (pr["fam"], "; ".join(instr(i) for i in pr["prog"]))
+        body3 += "Definition saver_unprotected_%s : list string := %s.\n" % (pr["fam"], g.lst([g.string(m) for m in pr["unlocked"]]))
+    names = ["saver_prog_%s" % pr["fam"] for pr in probes]
+    body3 += "Definition saver_progs : list (list (instr nat)) := [%s].\n" % "; ".join(names)
+    body3 += ("Lemma saver_progs_disciplined : forallb (disciplined nat Nat.eqb Outside) saver_progs = true /\\ "
+              "forallb (fun p => Nat.ltb 3 (List.length p)) saver_progs = true /\\ List.length saver_progs = 2%nat.\n"
+              "Proof. vm_compute. repeat split; reflexivity. Qed.\n"
+              "(* the interleaving theorem instantiated: any number of concurrent saves, each running one of the recorded programs *)\n"
+              "Definition C08_saver_instance M Out load obs eval Hload m0 (progs : list (list (instr nat))) sched Hall :=\n"
+              "  C08_shared_saver_reads_are_own M nat Out load obs eval Nat.eqb Hload (fun a b H => proj1 (Nat.eqb_eq a b) H) m0 progs sched Hall.\n"
+              "Check C08_saver_instance.\n")
+    ok3, so3, se3 = ctx.coq_cases("SaverTrace", body3)
+    unprot = sorted({m for pr in probes for m in pr["unlocked"]})
+    ctx.oblige("probe:saver_accesses_keep_lock_discipline", ok3, "" if ok3 else
+               "accesses of the shared decompression model outside decompressionMutex: %s; probes: %d; %s" % (
+                   unprot, len(probes), " ".join((se3 or so3).split())[-300:]))
+    if not ok3:
+        ctx.broken.append("probe:saver_accesses_keep_lock_discipline (gen/SaverTrace.v: the recorded instruction sequence of a real save "
+                          "does not keep Lock / load / read / Unlock; accesses outside the lock: %s)" % unprot)
+    ctx.stats["saver_probe"] = [{k: pr[k] for k in ("fam", "members", "accesses", "unlocked", "interleavings_tried", "interleavings_with_wrong_rows")} for pr in probes]
+
     # ---- correspondence
     def runobs(r):
         return "mkRO %s %s %s %s %s %s %s %s %s %s" % (
